@@ -484,6 +484,55 @@ def make_callback(rt, c, cb, slot_getter=None):
     return method, function
 
 
+GROUP_ORDER = ["validators", "cond", "before", "exit", "on", "enter", "after"]
+
+
+def make_alias_dispatch(members):
+    """ONE Python callable registered for several groups of the same transition / state (before="audit", on="audit",
+    after="audit"; State(enter=f, exit=f)).  members: [(c, cb, method, function)] of the abstract callbacks it stands
+    for, in phase order.  Which of them an invocation is follows from the execution it belongs to: the k-th call with one
+    and the same event_data object is the k-th group (a state's enter / exit is told apart by source and target unless
+    the transition is an external self transition, where exit comes first)."""
+    members = sorted(members, key=lambda m: GROUP_ORDER.index(m[1]["group"]))
+    seen = {}
+    is_state = members[0][1]["okind"] == "S"
+    owner = members[0][1]["owner"]
+
+    def pick(event_data, source, target):
+        if is_state:
+            sid, tid = getattr(source, "id", None), getattr(target, "id", None)
+            if not (sid == owner and tid == owner):
+                g = "enter" if tid == owner else "exit"
+                for m in members:
+                    if m[1]["group"] == g:
+                        return m
+        rec = seen.setdefault(id(event_data), [event_data, 0])     # (the object is kept: its id cannot be reused)
+        k = rec[1]
+        rec[1] += 1
+        return members[min(k, len(members) - 1)]
+
+    if any(m[1].get("coro") for m in members):
+        async def method(self, *, event=None, source=None, target=None, state=None, machine=None, event_data=None):
+            return await pick(event_data, source, target)[2](self, event=event, source=source, target=target, state=state,
+                                                             machine=machine)
+
+        async def function(*, event=None, source=None, target=None, state=None, machine=None, event_data=None):
+            return await pick(event_data, source, target)[3](event=event, source=source, target=target, state=state,
+                                                             machine=machine)
+    else:
+        def method(self, *, event=None, source=None, target=None, state=None, machine=None, event_data=None):
+            return pick(event_data, source, target)[2](self, event=event, source=source, target=target, state=state, machine=machine)
+
+        def function(*, event=None, source=None, target=None, state=None, machine=None, event_data=None):
+            return pick(event_data, source, target)[3](event=event, source=source, target=target, state=state, machine=machine)
+
+    name = members[0][1]["name"]
+    for f in (method, function):
+        f.__name__ = name
+        f.__qualname__ = name
+    return method, function
+
+
 # ------------------------------------------------------------------------------------------
 # Definition -> class
 # ------------------------------------------------------------------------------------------
@@ -535,6 +584,24 @@ def normalize_def(d):
             cb["coro"] = False     # a property getter is never a coroutine function
             cb["yields"] = 0
         cb["name"] = cb_name(c, cb)
+    # alias sets (one callable for several groups of one owner) must still be ONE callable after what a check did to the
+    # definition: same provider, style, name and owner, all plain functions or all coroutines; otherwise they are unrelated
+    sets = {}
+    for cb in d["cbs"]:
+        if cb.get("alias"):
+            sets.setdefault(cb["alias"], []).append(cb)
+    for members in sets.values():
+        key = {(cb["prov"], cb["style"], cb["name"], cb["okind"], cb["owner"], cb["tix"]) for cb in members}
+        groups = [cb["group"] for cb in members]
+        if len(key) != 1 or len(members) < 2 or len(set(groups)) != len(groups) or members[0]["style"] not in ("name", "callable", "method"):
+            for cb in members:
+                cb.pop("alias", None)
+            continue
+        coro = any(cb["coro"] for cb in members)
+        ys = max(cb["yields"] for cb in members)
+        for cb in members:
+            cb["coro"], cb["yields"] = coro, (ys if coro else 0)
+            cb.pop("defer", None)
     d.setdefault("evstyle", "param")
     d.setdefault("strict", False)
     d["events"] = declared_events(d)
@@ -600,6 +667,23 @@ class Built:
                 by_prov.setdefault(cb["prov"], {})[cb["name"]] = method
             elif style in ("method", "decorator"):
                 by_prov.setdefault("sm", {})[cb["name"]] = method
+        # one callable standing for several groups of one owner (cb["alias"] = label of the set)
+        sets = {}
+        for c, cb in enumerate(d["cbs"], start=1):
+            if cb.get("alias"):
+                sets.setdefault(cb["alias"], []).append((c, cb, funcs[c][0], funcs[c][1]))
+        for members in sets.values():
+            if len(members) < 2:
+                continue
+            dm, df = make_alias_dispatch(members)
+            q = funcs[members[0][0]]
+            dm.__qualname__, df.__qualname__ = q[0].__qualname__, q[1].__qualname__
+            for c, cb, _m, _f in members:
+                funcs[c] = (dm, df)
+                if cb["style"] == "name":
+                    by_prov.setdefault(cb["prov"], {})[cb["name"]] = dm
+                elif cb["style"] == "method":
+                    by_prov.setdefault("sm", {})[cb["name"]] = dm
         self.provider_methods = by_prov
         self.provider_functions = {p: {cb["name"]: funcs[c][1] for c, cb in enumerate(d["cbs"], start=1)
                                        if cb["prov"] == p and cb["style"] in ("name", "convention") and c in funcs}
